@@ -541,3 +541,80 @@ def path_summaries(fn: ast.FunctionDef, body=None, max_paths: int = 2000, **kw) 
                     ps.ret = n.ast.value if n.ast.value is not None else ast.Constant(value=None)
         out.append(ps)
     return out
+
+
+# ---- path facts: correlated branches over pure local tests -----------------------------------
+def _pure_local(e: ast.AST) -> bool:
+    """only local names / constants / comparisons / not / and / or: its value cannot change between
+    two evaluations unless one of the names is rebound"""
+    for x in ast.walk(e):
+        if isinstance(x, ast.Name):
+            if x.id in ("self", "cls"):
+                return False
+        elif not isinstance(x, (ast.Constant, ast.Compare, ast.BoolOp, ast.UnaryOp, ast.Not, ast.And, ast.Or, ast.cmpop, ast.Load, ast.expr_context)):
+            return False
+    return True
+
+
+def _fact_key(t: ast.AST) -> tuple[str, bool]:
+    """(canonical text, polarity): `not X`, `a is not b`, `a != b`, `a not in b` are the negations of their positive forms"""
+    pol = True
+    while isinstance(t, ast.UnaryOp) and isinstance(t.op, ast.Not):
+        t, pol = t.operand, not pol
+    if isinstance(t, ast.Compare) and len(t.ops) == 1:
+        flip = {ast.IsNot: ast.Is, ast.NotEq: ast.Eq, ast.NotIn: ast.In}
+        for neg, pos in flip.items():
+            if isinstance(t.ops[0], neg):
+                t = ast.Compare(left=t.left, ops=[pos()], comparators=t.comparators)
+                pol = not pol
+                break
+    return ast.unparse(t), pol
+
+
+def _bound_names(a: ast.AST) -> set[str]:
+    out = set()
+    for x in ast.walk(a):
+        if isinstance(x, ast.Name) and isinstance(x.ctx, (ast.Store, ast.Del)):
+            out.add(x.id)
+    return out
+
+
+def typestate_with_facts(cfg: CFG, init, transfer, max_states: int = 200000):
+    """typestate over (state, facts): a test over pure local names is remembered, so a later test
+    of the same expression (either polarity) follows only the consistent edge - the
+    `if t is not None: set(...)` ... `if t is not None: clear(...)` idiom is not split into four paths.
+    Returns (ins, pred) with states of the form (state, frozenset facts)."""
+    import re as _re
+
+    def tr(n, st):
+        inner, facts = st
+        outs = transfer(n, inner)
+        if n.kind == "test" and n.ast is not None and hasattr(n.ast, "test") and _pure_local(n.ast.test):
+            key, pol = _fact_key(n.ast.test)
+            known = dict(facts).get(key)
+            res = []
+            for s2, labels in outs:
+                for lab, val in (("true", pol), ("false", not pol)):
+                    if labels is not None and lab not in labels:
+                        continue
+                    if known is not None and known != val:
+                        continue
+                    res.append(((s2, facts | {(key, val)}), {lab}))
+                other = {l for _, l in n.succ if l not in ("true", "false")}
+                if other and (labels is None or other & labels):
+                    res.append(((s2, facts), other if labels is None else other & labels))
+            return res
+        if n.kind in ("stmt", "iter", "with_enter", "handler") and n.ast is not None:
+            if n.kind == "iter":
+                bound = _bound_names(n.ast.target)
+            elif n.kind == "with_enter":
+                bound = set().union(*[_bound_names(i.optional_vars) for i in n.ast.items if i.optional_vars is not None] or [set()])
+            elif n.kind == "handler":
+                bound = {n.ast.name} if getattr(n.ast, "name", None) else set()
+            else:
+                bound = _bound_names(n.ast) if not isinstance(n.ast, (ast.FunctionDef, ast.ClassDef)) else set()
+            if bound:
+                facts = frozenset(f for f in facts if not any(_re.search(rf"\b{_re.escape(b)}\b", f[0]) for b in bound))
+        return [((s2, facts), labels) for s2, labels in outs]
+
+    return typestate(cfg, (init, frozenset()), tr, max_states)
